@@ -25,8 +25,19 @@ func VerifC08_processData_payload() {
 	sc.curClientStreams = 1
 	var sent []byte
 	frames := vRange("frames", 1, 2)
+	lens := make([]int, frames)
+	total := 0
+	for i := range lens {
+		lens[i] = vRange(vName("dataLen", i), 0, 2)
+		total += lens[i]
+	}
+	if vBool("contentLengthDeclared") {
+		// padding is not part of the body: a padded upload that matches its Content-Length is legal
+		st.declBodyBytes = int64(total)
+		vReach("declared-length")
+	}
 	for i := 0; i < frames; i++ {
-		d := vBytes(vName("data", i), vRange(vName("dataLen", i), 0, 2))
+		d := vBytes(vName("data", i), lens[i])
 		pad := uint32(vRange(vName("padTotal", i), 0, 2)) // pad-length byte + padding
 		fl := Flags(0)
 		if pad > 0 {
